@@ -1125,6 +1125,16 @@ int32 psX509ParseCRL(psPool_t *pool, psX509Crl_t **crl, unsigned char *crlBin,
                     return PS_PARSE_FAIL;
                 }
 
+                /* The serial number and the date have to lie inside the
+                   entry: otherwise the subtraction below wraps and p is moved
+                   4 GB away. */
+                if (ilen < (uint32) (p - start) ||
+                    ilen - (uint32) (p - start) < timelen)
+                {
+                    psTraceCrypto("revokedCert entry shorter than its contents\n");
+                    psX509FreeCRL(lcrl);
+                    return PS_PARSE_FAIL;
+                }
                 /* skipping crlEntryExtensions */
                 p += ilen - (uint32) (p - start);
                 if (glen < (uint32) (p - revStart))
